@@ -46,11 +46,21 @@ class Trace:
 
 
 def run_traced(world_spec, ops, scratch_dir=None):
-    w = World(world_spec, scratch_dir=scratch_dir)
-    tr = Trace()
-    init = {m.idx: (np.array(m.obj.orientations[0], copy=True),
-                    np.array(m.obj.fractions[0], copy=True)) for m in w.minerals}
-    w.run(ops, after_op=tr.after_op)
+    import shutil
+    import tempfile
+
+    tmp = None
+    if scratch_dir is None and any(op["op"] == "restart" for op in ops):
+        tmp = scratch_dir = tempfile.mkdtemp(prefix="pdsim_twin_")
+    try:
+        w = World(world_spec, scratch_dir=scratch_dir)
+        tr = Trace()
+        init = {m.idx: (np.array(m.obj.orientations[0], copy=True),
+                        np.array(m.obj.fractions[0], copy=True)) for m in w.minerals}
+        w.run(ops, after_op=tr.after_op)
+    finally:
+        if tmp:
+            shutil.rmtree(tmp, ignore_errors=True)
     return w, tr, init
 
 
